@@ -59,9 +59,22 @@ def extract_shifts(ctx, f, rule):
             acc = kwarg(c, "accumulate")
             if k is None or val is None or acc is None or U(acc) != "True":
                 raise AnalysisError(rule, f"{f.qual}: unrecognised put `{U(st)}` in the centring step")
-            coef = 1 if U(val) == mean_var else (-1 if U(val) == f"-{mean_var}" else None)
+            # dtype / device casts do not change the value shifted
+            core_ = val
+            while isinstance(core_, ast.Call) and isinstance(core_.func, ast.Attribute) and core_.func.attr in ("to", "float", "double", "type", "cpu", "clone", "detach"):
+                core_ = core_.func.value
+            neg_ = isinstance(core_, ast.UnaryOp) and isinstance(core_.op, ast.USub)
+            if neg_:
+                core_ = core_.operand
+                while isinstance(core_, ast.Call) and isinstance(core_.func, ast.Attribute) and core_.func.attr in ("to", "float", "double", "type", "cpu", "clone", "detach"):
+                    core_ = core_.func.value
+            coef = (-1 if neg_ else 1) if U(core_) == mean_var else None
             if coef is None:
                 raise AnalysisError(rule, f"{f.qual}: unrecognised shift `{U(val)}`")
+            idx = kwarg(c, "indices")
+            if idx is not None and U(idx) not in ("()", "tuple()"):
+                ctx.violation(rule, f, c, f"`{U(c)[:80]}` shifts only the entries `{U(idx)}` of `{k}`: the other entries are not compensated for the re-centring of xi "
+                              "(the trajectory / event likelihood of the other components changes)", construct=f"partial compensation of {k}")
             shifts[k] = shifts.get(k, 0) + coef
             nodes[k] = st
     return shifts, mean_of, nodes
